@@ -266,7 +266,12 @@ func startEnv(cfg string, instance int) *Env {
 		if err != nil {
 			bb.Fatal("read config: %v", err)
 		}
-		b = append(b, []byte("\n[runtime-config]\n  enabled = true\n  load-path = \""+rt+"\"\n  reload-period = \"10s\"\n")...)
+		c := strings.Replace(string(b), "[runtime-config]\n  enabled = false\n  load-path = \"/opt/dbs/runtimeconfig/overrides.yml\"",
+			"[runtime-config]\n  enabled = true\n  load-path = \""+rt+"\"", 1)
+		if c == string(b) {
+			bb.Fatal("configuration template has no [runtime-config] section to enable")
+		}
+		b = []byte(c)
 		if err := os.WriteFile(conf, b, 0o644); err != nil {
 			bb.Fatal("write config: %v", err)
 		}
@@ -334,17 +339,20 @@ func (e *Env) loadFixture() {
 			e.mustAdmin("", fmt.Sprintf("GRANT %s ON %s TO %s", privName(p), db, u.Name))
 		}
 	}
+	if e.Logkeep {
+		// log-keeper product: no time-series rows (a line-protocol write into a plain database crashes this product type:
+		// outside this property); the fixture is the catalogue, the users and one repository with one log stream
+		e.mustStep(Req{Method: "POST", Pattern: "/api/v1/repository/{repository}", Path: "/api/v1/repository/" + repoName})
+		ls := Req{Method: "POST", Pattern: "/api/v1/logstream/{repository}/{logStream}", Path: "/api/v1/logstream/" + repoName + "/" + streamName, CT: "application/json"}
+		ls.Body64 = base64.StdEncoding.EncodeToString([]byte(`{"ttl": 3}`))
+		e.mustStep(ls)
+		return
+	}
 	for _, db := range dbs {
 		for i := 0; i < 3; i++ {
 			e.mustWrite(db, fmt.Sprintf("probe,host=a v=%d %d", i, tsBase+int64(i)*1e9))
 		}
 		e.mustWrite(db, fmt.Sprintf("ctlprobe,host=a v=1 %d", tsBase))
-	}
-	if e.Logkeep {
-		e.mustStep(Req{Method: "POST", Pattern: "/api/v1/repository/{repository}", Path: "/api/v1/repository/" + repoName})
-		ls := Req{Method: "POST", Pattern: "/api/v1/logstream/{repository}/{logStream}", Path: "/api/v1/logstream/" + repoName + "/" + streamName, CT: "application/json"}
-		ls.Body64 = base64.StdEncoding.EncodeToString([]byte(`{"ttl": 3}`))
-		e.mustStep(ls)
 	}
 	// wait until the new series are visible to queries (index flush lag)
 	deadline := time.Now().Add(30 * time.Second)
